@@ -58,7 +58,7 @@ func ValidateCreateVestingAccount(fromAddress string, toAddress string, amount s
 		return nil, nil, errors.Wrap(ErrParam, "create vesting account - negative coin amount")
 	}
 	if startTime > endTime {
-		return nil, nil, errors.Wrapf(ErrParam, "create vesting account - start time is after end time error (%s > %s)", time.Unix(startTime, 0).String(), time.Unix(endTime, 0).String())
+		return nil, nil, errors.Wrapf(ErrParam, "create vesting account - start time is after end time error (%s > %s)", time.Unix(startTime, 0).UTC().String(), time.Unix(endTime, 0).UTC().String())
 	}
 	fromAccAddress, err = sdk.AccAddressFromBech32(fromAddress)
 	if err != nil {
